@@ -372,6 +372,42 @@ func c20Codes(c *fw.Ctx, part, parts int) {
 	c.Sample(map[string]interface{}{"example_uri_check": "XHMURI(00102003, HOME, category 5, IP) decoded with an independent base-36 decoder"})
 }
 
+// c20StructureSweep: the configuration number must stay put across a restart with the SAME structure and
+// move by exactly one for a different structure, for many different structures (the stored structure hash takes
+// many different byte values, including white-space and zero bytes at its ends).
+func c20StructureSweep(c *fw.Ctx) {
+	n := 240
+	for v := 0; v < n; v++ {
+		if !c.Mine(v) {
+			continue
+		}
+		c.Eval(1)
+		c.State(1)
+		c.Trace(1)
+		c.Transition(3)
+		dir := filepath.Join(c.Scratch, fmt.Sprintf("c20s-%d", atomic.AddInt64(&bedSeq, 1)))
+		variant := fmt.Sprintf("extra-aid:%d", 100+v)
+		cas := c20Case{Hist: []string{"structure " + variant, "restart same", "restart other", "restart other again"}}
+		want := []string{"1", "1", "2", "2"}
+		vars := []string{variant, variant, fmt.Sprintf("extra-aid:%d", 1000+v), fmt.Sprintf("extra-aid:%d", 1000+v)}
+		for i, vv := range vars {
+			b, err := newBed(c, bedOpt{Dir: dir, Variant: vv})
+			if err != nil {
+				c.Infra("bed: " + err.Error())
+				break
+			}
+			got := b.W.T.VerifTxtRecords()["c#"]
+			b.CloseKeepNoWait()
+			if got != want[i] {
+				c.Report(fmt.Sprintf("config-number/structure-sweep/step%d", i), fmt.Sprintf("structure %s: after %q the configuration number is %s, expected %s", variant, cas.Hist[i], got, want[i]), cas)
+				break
+			}
+		}
+		os.RemoveAll(dir)
+	}
+	c.Class("structure-sweep")
+}
+
 func c20Run(c *fw.Ctx) {
 	// every shard sweeps its slice of the 10^8 codes (CPU bound) while it replays its share of the restart
 	// histories (dominated by the one-second mDNS announcement hc makes inside the pairing handlers)
@@ -381,6 +417,7 @@ func c20Run(c *fw.Ctx) {
 		done <- true
 	}()
 	c20Histories(c)
+	c20StructureSweep(c)
 	<-done
 }
 
@@ -437,7 +474,7 @@ func init() {
 	fw.Register(&fw.Check{
 		ID:    "C20",
 		Level: "model_checking",
-		Rule:  "(a) every history of length 3 (quick) / 4 (thorough) after an initial start over {restart with the same accessories, restart with changed values only, restart with an added accessory, restart with another setup code, real pair-setup of a new controller, remove a pairing and add a pairing through /pairings on a verified connection, application value changes} on one storage directory with the real transport; after EVERY event the advertised TXT records and the store are compared with the reference model: device id and long-term key constant (a stored controller still verifies against the original accessory key), pairings = model set, c# +1 exactly when the structure differs from the previous run, sf=1 ⇔ no controller pairing. (b) ALL 10^8 eight-digit codes and all ≈12 million strings of length ≤9 over {0,9,a,-,space,non-ASCII digit}: ValidatePin accepts exactly the non-trivial eight-digit codes and formats XXX-XX-XXX; for all 10^8 codes (category 5, IP flag) and for all 256 categories × 16 flag sets × 7 setup ids × 7 boundary codes an independent base-36 decoder recovers code, category, flags and setup id from XHMURI. states = restart histories executed",
+		Rule:  "(a) every history of length 3 (quick) / 4 (thorough) after an initial start over {restart with the same accessories, restart with changed values only, restart with an added accessory, restart with another setup code, real pair-setup of a new controller, remove a pairing and add a pairing through /pairings on a verified connection, application value changes} on one storage directory with the real transport; after EVERY event the advertised TXT records and the store are compared with the reference model: device id and long-term key constant (a stored controller still verifies against the original accessory key), pairings = model set, c# +1 exactly when the structure differs from the previous run, sf=1 ⇔ no controller pairing. plus a sweep over 240 structurally different accessory sets (restart same ⇒ c# unchanged, other ⇒ +1, again ⇒ unchanged). (b) ALL 10^8 eight-digit codes and all ≈12 million strings of length ≤9 over {0,9,a,-,space,non-ASCII digit}: ValidatePin accepts exactly the non-trivial eight-digit codes and formats XXX-XX-XXX; for all 10^8 codes (category 5, IP flag) and for all 256 categories × 16 flag sets × 7 setup ids × 7 boundary codes an independent base-36 decoder recovers code, category, flags and setup id from XHMURI. states = restart histories executed",
 		Run:   c20Run,
 		Replay: func(c *fw.Ctx, raw json.RawMessage) {
 			var cc c20CodeCase
